@@ -167,7 +167,121 @@ func censusAll(c *factsCtx) []blockOp {
 	return ops
 }
 
+// chanMake: one make(chan T, cap) of the engine sources: where it is, what it is assigned to, its capacity (0 = none
+// given, a computed capacity counts as 1)
+type chanMake struct {
+	File, Func, Name, Type string
+	Cap                    int
+}
+
+func chanMakes(c *factsCtx) (out []chanMake) {
+	ops := []string{}
+	for _, pat := range []string{"*.go", "pkg/tracing/*.go"} {
+		m, _ := filepath.Glob(filepath.Join(c.repo, pat))
+		for _, p := range m {
+			if strings.HasSuffix(p, "_test.go") || verifOnly(p) {
+				continue
+			}
+			rel, _ := filepath.Rel(c.repo, p)
+			ops = append(ops, rel)
+		}
+	}
+	sort.Strings(ops)
+	for _, rel := range ops {
+		f := c.parse(rel)
+		if f == nil {
+			continue
+		}
+		for _, d := range f.Decls {
+			fd, ok := d.(*ast.FuncDecl)
+			if !ok || fd.Body == nil {
+				continue
+			}
+			fname := fd.Name.Name
+			if fd.Recv != nil && len(fd.Recv.List) > 0 {
+				fname = nodeText(c.fset, fd.Recv.List[0].Type) + "." + fname
+			}
+			asMake := func(e ast.Expr) (typ string, capv int, ok bool) {
+				call, isCall := e.(*ast.CallExpr)
+				if !isCall {
+					return
+				}
+				id, isId := call.Fun.(*ast.Ident)
+				if !isId || id.Name != "make" || len(call.Args) == 0 {
+					return
+				}
+				ch, isCh := call.Args[0].(*ast.ChanType)
+				if !isCh {
+					return
+				}
+				typ = nodeText(c.fset, ch.Value)
+				if len(call.Args) >= 2 {
+					capv = 1
+					if lit, isLit := call.Args[1].(*ast.BasicLit); isLit {
+						fmt.Sscan(lit.Value, &capv)
+					}
+				}
+				return typ, capv, true
+			}
+			base := func(e ast.Expr) string {
+				for {
+					switch x := e.(type) {
+					case *ast.IndexExpr:
+						e = x.X
+					case *ast.SelectorExpr:
+						return x.Sel.Name
+					case *ast.Ident:
+						return x.Name
+					case *ast.StarExpr:
+						e = x.X
+					default:
+						return nodeText(c.fset, e)
+					}
+				}
+			}
+			ast.Inspect(fd.Body, func(n ast.Node) bool {
+				switch x := n.(type) {
+				case *ast.AssignStmt:
+					for i, r := range x.Rhs {
+						if typ, capv, ok := asMake(r); ok && i < len(x.Lhs) {
+							out = append(out, chanMake{rel, fname, base(x.Lhs[i]), typ, capv})
+						}
+					}
+				case *ast.KeyValueExpr:
+					if typ, capv, ok := asMake(x.Value); ok {
+						out = append(out, chanMake{rel, fname, base(x.Key), typ, capv})
+					}
+				case *ast.ValueSpec:
+					for i, r := range x.Values {
+						if typ, capv, ok := asMake(r); ok && i < len(x.Names) {
+							out = append(out, chanMake{rel, fname, x.Names[i].Name, typ, capv})
+						}
+					}
+				}
+				return true
+			})
+		}
+	}
+	return
+}
+
 func init() {
+	factGens = append(factGens, func(c *factsCtx) {
+		mk := chanMakes(c)
+		if len(mk) < 20 {
+			c.fail("census: only %d channel creations found in the engine sources", len(mk))
+			return
+		}
+		c.out.WriteString("(* channel creations of the root package and pkg/tracing: (file|function|assigned to|element type, capacity) (harness/census.go) *)\nDefinition chan_makes : list (string * string * nat) := [\n")
+		for i, m := range mk {
+			sep := ";"
+			if i+1 == len(mk) {
+				sep = ""
+			}
+			fmt.Fprintf(&c.out, "  (%s, %s, %d)%s\n", coqStr(m.File+"|"+m.Func+"|"+m.Type), coqStr(m.Name), m.Cap, sep)
+		}
+		c.out.WriteString("].\n\n")
+	})
 	// facts: the census as a Coq list (key, has an alternative that fires on cancellation)
 	factGens = append(factGens, func(c *factsCtx) {
 		ops := censusAll(c)
